@@ -85,7 +85,8 @@ func (r *coreRun) limitedLoad(name string, n int, viaMaxHistory bool) ([]int, er
 			return nil, fmt.Errorf("List(-1) %v differs from the log listing %v after a limited load", l, out)
 		}
 		// the same instance then loads without a limit: everything is there
-		if n > 0 && !viaMaxHistory && len(out) > 0 && r.bid[len(r.bid)-1]%2 == 0 {
+		extras := n == 1 || n == len(full)/2 || n == len(full)-1 || n == len(full)+1
+		if extras && !viaMaxHistory && len(out) > 0 && r.bid[len(r.bid)-1]%2 == 0 {
 			if err := ref.S.Load(ctx, -1); err != nil {
 				return nil, fmt.Errorf("unlimited load after a limited one: %w", err)
 			}
@@ -96,7 +97,7 @@ func (r *coreRun) limitedLoad(name string, n int, viaMaxHistory bool) ([]int, er
 			return out, nil
 		}
 		// the same instance writes once more and loads with the same limit again: the window moves with the log
-		if n > 0 && !viaMaxHistory && len(out) > 0 {
+		if extras && !viaMaxHistory && len(out) > 0 {
 			op, err := ref.S.(orbitdb.EventLogStore).Add(ctx, []byte("after-limited-load"))
 			if err != nil {
 				return nil, fmt.Errorf("write after a limited load: %w", err)
